@@ -20,6 +20,10 @@
 //	      caller without copying, is still the encoding of its value after the
 //	      library has marshalled / decoded other values (every ordered pair of a
 //	      value alphabet x four histories).
+//	(v)   mutate (mutate.go): a tree that was decoded (or built, or already marshalled once) and then
+//	      changed in place below the root - a scalar overwritten through the pointer Get returned,
+//	      Set on a nested container - marshals, at the root and at every level on the path, as the
+//	      value it holds now.
 //
 // Non-empty strict arrays form their own family: a failure that disappears when
 // they are replaced by null is keyed ".../strict-array-nonempty"; a failure
@@ -341,12 +345,14 @@ func run(c *hl.Ctx) {
 		"(iv) retention: EVERY ordered pair (A, B) over the retention alphabet (all trees <= 2 nodes over the full leaf/key alphabets + size-class, wide and nested containers of each kind; thorough: + all 3-node trees over the small alphabets) " +
 		"x histories {then: a=M(A), reps x M(B); twice: a1=M(A), a2=M(A) on the same value, reps x M(B); decode: a=M(A), decode(spec(B)), Size, M(decoded)} plus per A {wrapped: a=M(A), w=M(object holding the same library value), reps x M(A)}: " +
 		"every slice returned by MarshalBinary is kept by the caller without copying and without writing to it and is read again after every later library call; it must be byte-identical to what it was at return (hence still decoded by the independent decoder to its value). " +
-		"Non-trivial there = history for which the kept slice was, at return, a specification encoding of A by the independent decoder, every interposed call completed, and all reads held.")
+		"Non-trivial there = history for which the kept slice was, at return, a specification encoding of A by the independent decoder, every interposed call completed, and all reads held." +
+		mutateRule)
 	c.Assume("the reference AMF0 codec (engine/ref/amf0ref, written from amf0_spec_121207) is correct",
 		"repeated keys are outside C06 (which value an object with a repeated key denotes is not defined; C05 covers their size)",
 		"string contents are fixed per length class; number alphabet is the listed bit patterns",
 		"strict-array elements of API-built trees get keys by a fixed rotation (the API demands keys)",
-		"retention: histories run on one goroutine (concurrent marshalling is outside this family); a caller that only reads the returned slice is entitled to find it unchanged; values whose fresh encoding is already outside the specification (non-empty strict arrays, known finding) are judged for stability only")
+		"retention: histories run on one goroutine (concurrent marshalling is outside this family); a caller that only reads the returned slice is entitled to find it unchanged; values whose fresh encoding is already outside the specification (non-empty strict arrays, known finding) are judged for stability only",
+		"mutate: a container is an ordered map (Set on an absent key appends a pair; Set on a present key replaces the value, in place or moved to the end; assigning through the pointer Get returned changes that scalar and nothing else); while the library uses its keyed strict-array layout (known finding), values holding a non-empty strict array are presented and read back in that layout by the harness's own codec (mutate.go), everything else by the specification codec")
 
 	full, small := ref.DefaultLeaves(), ref.SmallLeaves()
 	keys4, keys2 := ref.DefaultKeys(), []string{"a", ""}
@@ -371,6 +377,7 @@ func run(c *hl.Ctx) {
 	}
 	checkMarkers(c, &idx)
 	checkRetentionFamily(c, &idx)
+	checkMutateFamily(c, &idx)
 
 	maxN := 0
 	for _, p := range profs {
@@ -462,6 +469,12 @@ func replay(c *hl.Ctx, raw json.RawMessage) {
 			panic(err)
 		}
 		checkRetention(c, cs, pairKey(cs.Hist, 0, 0))
+	case "mutate":
+		var cs mutCase
+		if err := json.Unmarshal(raw, &cs); err != nil {
+			panic(err)
+		}
+		checkMutate(c, cs, keyedStrictLayout())
 	case "marker":
 		var cs markerCase
 		if err := json.Unmarshal(raw, &cs); err != nil {
